@@ -2136,11 +2136,18 @@ func (s *swamp) SaveFunction(t treasure.Treasure, guardID guard.ID) treasure.Tre
 		// add the treasure to the treasuresWaitingForWriter index
 		s.treasuresWaitingForWriter.Add(t)
 
+		// Publishing the treasure (beaconKey) and dropping it from the in-flight tracker must be
+		// one step for CreateTreasure, which checks beaconKey first and the tracker second under
+		// createMu: without the lock it could miss the treasure in both (checked beaconKey before
+		// the Add, the tracker after the Delete), hand out a second treasure object for the same
+		// key, and the update made on that object would be lost.
+		s.createMu.Lock()
 		// add treasure to the beaconKey index
 		s.beaconKey.Add(t)
 
 		// the treasure is now visible via beaconKey, so it no longer needs the in-flight tracker
 		s.creatingTreasures.Delete(t.GetKey())
+		s.createMu.Unlock()
 
 		// add treasure to all other beacons if needed
 		s.addTreasureToBeacons(t)
